@@ -26,7 +26,18 @@ const (
 	idUpdCkpt   = "(*" + pkgMassDBV1 + ".HashMap).UpdateCheckpoint"
 )
 
+// callsIn: calls of the named functions in fn — and in the helpers fn calls that the reference tree
+// does not have (they are part of fn for the rules, summary.go); on the reference tree itself that is
+// fn alone.
 func callsIn(fn *ssa.Function, ids ...string) []*ssa.Call {
+	out := callsInShallow(fn, ids...)
+	for _, h := range newHelpersOf(fn) {
+		out = append(out, callsInShallow(h, ids...)...)
+	}
+	return out
+}
+
+func callsInShallow(fn *ssa.Function, ids ...string) []*ssa.Call {
 	var out []*ssa.Call
 	allInstrs(fn, func(in ssa.Instruction) {
 		if c, ok := in.(*ssa.Call); ok && isCallAny(c, ids...) {
@@ -80,6 +91,13 @@ func init() {
 
 // failureEdgesOf returns a cut predicate for the non-nil edges of the error result of call.
 func errorEdgeCut(fn *ssa.Function, call *ssa.Call, cutNonNil bool) func(from, to *ssa.BasicBlock) bool {
+	if call != nil && call.Parent() != fn && outermost(call.Parent()) != outermost(fn) {
+		// the step sits in a new helper: the error fn tests is that of the helper's call (the helper hands the
+		// step's error on — the ERRFLOW rules of the properties cover the helpers too)
+		if s2, ok := siteIn(fn, call).(*ssa.Call); ok && s2 != nil {
+			call = s2
+		}
+	}
 	var tests []nilTest
 	for _, e := range errResults(call) {
 		tests = append(tests, nilTestsOf(fn, e)...)
